@@ -352,6 +352,62 @@ pub fn c05_encrypt(ctx: &Ctx, out: &mut RunOut) -> Result<(), Violation> {
             }
         }
     }
+    // ---- second cycle: a decrypted document is a document like any other. Encrypt the result of the
+    // in-memory decryption again under a different handler and different passwords, decrypt, compare.
+    if ctx.chance(W, 1, 3, "second-cycle") {
+        let mut d = enc.clone();
+        guarded("Document::decrypt", || d.decrypt(&user_pw))?.map_err(|e| Violation::new("decrypt-rejected", format!("{}: decrypt before the second cycle: {e:?}", setup.label)))?;
+        let (u2, o2) = ("second user \u{e9}".to_string(), "2nd-owner-password-longer-than-thirty-two-bytes".to_string());
+        let which = ctx.draw(W, 4, "second-version");
+        let state2 = {
+            let cf = |k: Kind| -> BTreeMap<Vec<u8>, Arc<dyn CryptFilter>> { BTreeMap::from([(b"StdCF".to_vec(), mk(k))]) };
+            let v = match which {
+                0 => EncryptionVersion::V1 { document: &d, owner_password: &o2, user_password: &u2, permissions: perms },
+                1 => EncryptionVersion::V2 { document: &d, owner_password: &o2, user_password: &u2, key_length: 128, permissions: perms },
+                2 => EncryptionVersion::V4 {
+                    document: &d,
+                    encrypt_metadata: !encrypt_metadata,
+                    crypt_filters: cf(Kind::Aes128),
+                    stream_filter: b"StdCF".to_vec(),
+                    string_filter: b"StdCF".to_vec(),
+                    owner_password: &o2,
+                    user_password: &u2,
+                    permissions: perms,
+                },
+                _ => EncryptionVersion::V5 {
+                    encrypt_metadata: !encrypt_metadata,
+                    crypt_filters: cf(Kind::Aes256),
+                    file_encryption_key: &fek,
+                    stream_filter: b"StdCF".to_vec(),
+                    string_filter: b"StdCF".to_vec(),
+                    owner_password: &o2,
+                    user_password: &u2,
+                    permissions: perms,
+                },
+            };
+            guarded("EncryptionState::try_from", || EncryptionState::try_from(v))?
+        };
+        if let Ok(state2) = state2 {
+            let label2 = format!("{} then {}", setup.label, ["V1", "V2/128", "V4 AES-128", "V5"][which as usize]);
+            guarded("Document::encrypt", || d.encrypt(&state2))?.map_err(|e| Violation::new("encrypt-failed", format!("{label2}: second encrypt: {e:?}")))?;
+            ctx.count("second-cycle");
+            for (who, pw) in [("user", &u2), ("owner", &o2)] {
+                let mut x = d.clone();
+                guarded("Document::decrypt", || x.decrypt(pw))?
+                    .map_err(|e| Violation::new("decrypt-rejected", format!("{label2}: decrypt with the new {who} password failed: {e:?}")))?;
+                let got = sim::from_doc(&x);
+                pdfmodel::same_doc(&m, &got, &|_, o| pdfmodel::is_xref_stream_obj(o))
+                    .map_err(|(c, e)| Violation::new(format!("decrypt:{c}"), format!("{label2}, decrypt({who}) of the re-encrypted document: {e}")))?;
+            }
+            // the old passwords are wrong passwords now
+            if user_pw != u2 && user_pw != o2 {
+                let mut x = d.clone();
+                if guarded("Document::decrypt(old password)", || x.decrypt(&user_pw))?.is_ok() && !user_pw.is_empty() {
+                    return Err(Violation::new("wrong-password-accepted", format!("{label2}: the user password of the first encryption still opens the re-encrypted document")));
+                }
+            }
+        }
+    }
     ctx.count_n("rng-bytes-served", ctx.rng_bytes());
     out.case_hash = simcore::mix(sim::full_digest(&enc), simcore::mix_str(1, &setup.label));
     out.nontrivial = protected > 0;
